@@ -94,8 +94,18 @@ def gen_cases(tier: str, seed: int):
         if x < 0.12:
             yield {"kind": "array_literal", "seed": r.randrange(1 << 30)}
             continue
+        if x < 0.135:
+            yield {"kind": "pandas_docs", "seed": r.randrange(1 << 30)}
+            continue
         if x < 0.15:
             yield {"kind": r.choice(["flatten2", "nested_cast"]), "seed": r.randrange(1 << 30), "source": r.choice(["literal", "column"])}
+            continue
+        if x < 0.19:
+            # object keys that look like numbers are keys all the same: v['2023'] is a key look-up, v[2023] an array position
+            doc = {k: gen_doc(r, 2) for k in r.sample(["7", "2023", "0", "a", "b"], 3)}
+            key = r.choice(list(doc) + ["1", "2023"])
+            yield {"kind": "nav", "doc": json.dumps(doc), "path": [key], "op": r.choice(["extract", "cast_int", "cast_float", "cast_bool", "array_size", "bool_ctx", "arith"]),
+                   "source": r.choice(["literal", "column"]), "syntax": "bracket", "k": r.randint(-2, 50)}
             continue
         doc = {k: gen_doc(r, 1) for k in r.sample(KEYS, r.randint(1, 4))} if r.random() < 0.8 else [gen_doc(r, 1) for _ in range(r.randint(0, 4))]
         paths = all_paths(doc)
@@ -168,6 +178,8 @@ def run_case(case: dict, env: core.Env) -> None:
         return _try_parse(case, env, cur)
     if kind == "array_literal":
         return _array_literal(case, env, cur)
+    if kind == "pandas_docs":
+        return _pandas_docs(case, env, cur)
     if kind == "flatten2":
         return _flatten2(case, env, cur)
     if kind == "nested_cast":
@@ -205,7 +217,8 @@ def run_case(case: dict, env: core.Env) -> None:
     def wit(key: str, detail: str) -> None:
         if weak_region:
             family = key.split("/")[1]
-            env.witness(f"C11/{shape}-path/wrong-value", detail)
+            # chained brackets fail for every operation (keyed by shape only); a single bracket works except for a few families
+            env.witness(f"C11/{shape}-path/wrong-value" + ("/" + key.split("/", 1)[1] if shape.endswith("single") else ""), detail)
         else:
             env.witness(key, detail)
 
@@ -215,7 +228,7 @@ def run_case(case: dict, env: core.Env) -> None:
         if "Failed to cast value to numerical" in msg:
             env.witness("C11/rejected/variant-number-does-not-fit-int32", f"{out['sql']}: {msg[:250]}")
         elif weak_region:
-            env.witness(f"C11/{shape}-path/rejected", f"{out['sql']}: {msg[:250]}")
+            env.witness(f"C11/{shape}-path/rejected" + (f"/{family}/{vk}" if shape.endswith("single") else ""), f"{out['sql']}: {msg[:250]}")
         else:
             env.witness(f"C11/rejected/{what}/{out['exc']['cls']}", f"{out['sql']}: {msg[:250]}")
 
@@ -382,7 +395,7 @@ def run_case(case: dict, env: core.Env) -> None:
         b = core.run_stmt(cur, f"SELECT {path_sql('V', path, syntax)}{'::VARCHAR' if op != 'extract' else ''} AS X FROM DOCS WHERE ID = {rid}")
         if a["ok"] and b["ok"] and a["rows"] != b["rows"]:
             if weak_region:
-                env.witness(f"C11/{shape}-path/wrong-value", f"literal {a['rows']} column {b['rows']} for path {path} of {case['doc']}")
+                env.witness(f"C11/{shape}-path/wrong-value" + (f"/column-vs-literal/{vk}" if shape.endswith("single") else ""), f"literal {a['rows']} column {b['rows']} for path {path} of {case['doc']}")
             else:
                 env.witness(f"C11/column-vs-literal/{op}/{vk}", f"literal {a['rows']} column {b['rows']} for path {path} of {case['doc']}")
     cur.execute(f"DELETE FROM DOCS WHERE ID = {rid}")
@@ -411,6 +424,62 @@ def _store(cur: Any, doc: Any) -> tuple[int, str]:
     cur.execute("DELETE FROM DOCS")
     cur.execute(f"INSERT INTO DOCS SELECT {rid}, {lit_src}")
     return rid, lit_src
+
+
+def _pandas_docs(case: dict, env: core.Env, cur: Any) -> None:
+    """Documents written with write_pandas are the same JSON documents: same keys with different kinds of values in
+    different rows, NULL or non-container rows anywhere (also first)."""
+    import pandas as pd
+
+    import fakesnow.fakes as fakes
+
+    r = random.Random(case["seed"])
+    pool_n = [7, 2.5, "7", True, None, [1, 2], {"x": 1}]
+    docs: list[Any] = []
+    for _ in range(r.randint(2, 5)):
+        y = r.random()
+        if y < 0.2:
+            docs.append(None)
+        elif y < 0.3:
+            docs.append([r.choice([1, "a", None]), r.choice([2, "b"])])
+        else:
+            docs.append({"n": r.choice(pool_n), "tags": r.choice([[1, 2], ["1", "2"], [], [1, "x"]]), "s": r.choice(["x y", "it's", ""])})
+    if r.random() < 0.5:
+        docs[0] = None
+    if not any(isinstance(d, dict) for d in docs):
+        docs.append({"n": 7, "tags": [1, 2], "s": "x"})
+    cur.execute("CREATE OR REPLACE TABLE PD_DOCS (ID INT, V VARIANT)")
+    df = pd.DataFrame({"ID": list(range(len(docs))), "V": docs})
+    env.cover("op_x_kind", f"pandas_docs/first-{'null' if docs[0] is None else type(docs[0]).__name__}")
+    try:
+        fakes.write_pandas(_state["conn"], df, "PD_DOCS")
+    except Exception as e:  # noqa: BLE001
+        env.witness(f"C11/write_pandas-documents/rejected/{type(e).__name__}", f"{docs!r}: {e}"[:400])
+        return
+    env.count("cmp_extract")
+    rows = cur.execute("SELECT ID, V, V:n, V:tags, V:s::VARCHAR, ARRAY_SIZE(V:tags) FROM PD_DOCS ORDER BY ID").fetchall()
+    if len(rows) != len(docs):
+        env.witness("C11/write_pandas-documents/row-count", f"{len(rows)} rows for {len(docs)} documents")
+        return
+    for (i, v, n, tags, s, nt), d in zip(rows, docs):
+        def same(got: Any, want: Any) -> bool:
+            return (got in (None, "null")) if want is None else _json_eq(got, want)
+        isd = isinstance(d, dict)
+        bad = None
+        if not same(v, d):
+            bad = ("document", v, d)
+        elif isd and not same(n, d["n"]):
+            bad = ("member-" + _kind(d["n"], True), n, d["n"])
+        elif isd and not same(tags, d["tags"]):
+            bad = ("array-member", tags, d["tags"])
+        elif isd and s != d["s"]:
+            bad = ("string-member-as-text", s, d["s"])
+        elif isd and d["tags"] and nt != len(d["tags"]):
+            bad = ("array_size", nt, len(d["tags"]))
+        if bad:
+            env.witness(f"C11/write_pandas-documents/{bad[0]}", f"wrote {docs!r}; row {i}: read {bad[1]!r} expected {bad[2]!r}")
+            break
+    env.nontrivial(("pandas_docs", json.dumps(docs)))
 
 
 def _flatten2(case: dict, env: core.Env, cur: Any) -> None:
